@@ -5,6 +5,7 @@
 package main
 
 import (
+	"bytes"
 	"context"
 	"encoding/binary"
 	"fmt"
@@ -594,12 +595,16 @@ func (f *feed) Read(b []byte) (int, error) {
 }
 
 type fsess struct {
-	id  int
-	cur *int
-	out map[int]int
+	id   int
+	cur  *int
+	out  map[int]int
+	data map[int][]byte // the bytes of the packet the session was handed, per read
 }
 
-func (s *fsess) Write(gopacket.Packet) { s.out[*s.cur] = s.id }
+func (s *fsess) Write(p gopacket.Packet) {
+	s.out[*s.cur] = s.id
+	s.data[*s.cur] = append([]byte{}, p.Data()...)
+}
 
 // ---------------------------------------------------------------- policies
 
@@ -946,7 +951,7 @@ func main() {
 		"unknown indexes and nil sessions, RouteIPv4/RouteIPv6 on 8 packets whose destinations sit on the boundaries of the prefixes " +
 		"(first-1, first, last, last+1), IPv4-mapped IPv6 destinations; forwarder: real IPForwarder.Run over serialized packets (valid " +
 		"TCP/UDP, fragments, DF, IP protocols gopacket cannot decode, truncated transport headers, truncated IP headers, other version " +
-		"nibbles, empty reads); policies: real Policy.Match probed with IPSet.Contains at first-1/first/last/last+1 of every prefix of " +
+		"nibbles, empty reads; the bytes handed to each session are compared with the bytes read); policies: real Policy.Match probed with IPSet.Contains at first-1/first/last/last+1 of every prefix of " +
 		"the policy and of the query plus random addresses (both families), AdvertiseList, UnmarshalText on corpus / marshalled / " +
 		"respelled / mutated ASCII texts, MarshalText + UnmarshalText on policies from the image of UnmarshalText; " +
 		"non-trivial = a packet was routed to a session or dropped below a containing prefix, a policy rule decided an address, " +
@@ -1034,11 +1039,12 @@ func main() {
 		}
 		cur := 0
 		out := map[int]int{}
+		data := map[int][]byte{}
 		rt, _ := t.build(nil)
 		// sessions that record which read they were handed
 		for _, o := range t.ops {
 			if o.set && o.sess != 0 {
-				_ = rt.SetSession(o.id, &fsess{id: o.sess, cur: &cur, out: out})
+				_ = rt.SetSession(o.id, &fsess{id: o.sess, cur: &cur, out: out, data: data})
 			}
 		}
 		// replay the operations in order so that clears and overwrites end as in the model
@@ -1047,7 +1053,7 @@ func main() {
 			case o.set && o.sess == 0:
 				_ = rt.SetSession(o.id, nil)
 			case o.set:
-				_ = rt.SetSession(o.id, &fsess{id: o.sess, cur: &cur, out: out})
+				_ = rt.SetSession(o.id, &fsess{id: o.sess, cur: &cur, out: out, data: data})
 			default:
 				_ = rt.ClearSession(o.id)
 			}
@@ -1076,7 +1082,15 @@ func main() {
 		for j, p := range ps {
 			hows[j] = p.how
 		}
-		run.Add("forward", term, term, deliv, map[string]any{"packets": hows, "impl": impl}, tags...)
+		cid := run.Add("forward", term, term, deliv, map[string]any{"packets": hows, "impl": impl}, tags...)
+		// the session must be handed the packet that was read, byte for byte
+		for j := range ps {
+			if _, ok := out[j]; ok && !bytes.Equal(data[j], raws[j]) {
+				run.Violate(cid, fmt.Sprintf("packet %d reached its session with other bytes than were read (%d bytes in, %d out)",
+					j, len(raws[j]), len(data[j])), map[string]any{"in": fmt.Sprintf("%x", raws[j]), "out": fmt.Sprintf("%x", data[j])})
+			}
+		}
+		run.Tally("fwd:bytes-compared")
 	}
 
 	// 3. Policy.Match
